@@ -288,6 +288,7 @@ public:
 #if !(FASTOR_NO_ALIAS)
         if (_does_alias) {
             _does_alias = false;
+            FASTOR_VERIF_ROUTE("view.alias_copy.tensor_views_nd");
             // Evaluate this into a temporary
             auto tmp_this_tensor = get_tensor();
             auto tmp = TensorViewExpr<TensorType<T,Rest...>,DIMS>(tmp_this_tensor,get_sequences());
@@ -376,6 +377,7 @@ public:
 #if !(FASTOR_NO_ALIAS)
         if (_does_alias) {
             _does_alias = false;
+            FASTOR_VERIF_ROUTE("view.alias_copy.tensor_views_nd");
             // Evaluate this into a temporary
             auto tmp_this_tensor = get_tensor();
             auto tmp = TensorViewExpr<Tensor<T,Rest...>,DIMS>(tmp_this_tensor,get_sequences());
@@ -490,6 +492,7 @@ public:
 #if !(FASTOR_NO_ALIAS)
         if (_does_alias) {
             _does_alias = false;
+            FASTOR_VERIF_ROUTE("view.alias_copy.tensor_views_nd");
             // Evaluate this into a temporary
             auto tmp_this_tensor = get_tensor();
             auto tmp = TensorViewExpr<Tensor<T,Rest...>,DIMS>(tmp_this_tensor,get_sequences());
@@ -575,6 +578,7 @@ public:
 #if !(FASTOR_NO_ALIAS)
         if (_does_alias) {
             _does_alias = false;
+            FASTOR_VERIF_ROUTE("view.alias_copy.tensor_views_nd");
             // Evaluate this into a temporary
             auto tmp_this_tensor = get_tensor();
             auto tmp = TensorViewExpr<Tensor<T,Rest...>,DIMS>(tmp_this_tensor,get_sequences());
@@ -659,6 +663,7 @@ public:
 #if !(FASTOR_NO_ALIAS)
         if (_does_alias) {
             _does_alias = false;
+            FASTOR_VERIF_ROUTE("view.alias_copy.tensor_views_nd");
             // Evaluate this into a temporary
             auto tmp_this_tensor = get_tensor();
             auto tmp = TensorViewExpr<Tensor<T,Rest...>,DIMS>(tmp_this_tensor,get_sequences());
@@ -743,6 +748,7 @@ public:
 #if !(FASTOR_NO_ALIAS)
         if (_does_alias) {
             _does_alias = false;
+            FASTOR_VERIF_ROUTE("view.alias_copy.tensor_views_nd");
             // Evaluate this into a temporary
             auto tmp_this_tensor = get_tensor();
             auto tmp = TensorViewExpr<Tensor<T,Rest...>,DIMS>(tmp_this_tensor,get_sequences());
@@ -830,6 +836,7 @@ public:
 #if !(FASTOR_NO_ALIAS)
         if (_does_alias) {
             _does_alias = false;
+            FASTOR_VERIF_ROUTE("view.alias_copy.tensor_views_nd");
             // Evaluate this into a temporary
             auto tmp_this_tensor = get_tensor();
             auto tmp = TensorViewExpr<Tensor<T,Rest...>,DIMS>(tmp_this_tensor,get_sequences());
@@ -911,6 +918,7 @@ public:
 #if !(FASTOR_NO_ALIAS)
         if (_does_alias) {
             _does_alias = false;
+            FASTOR_VERIF_ROUTE("view.alias_copy.tensor_views_nd");
             // Evaluate this into a temporary
             auto tmp_this_tensor = get_tensor();
             auto tmp = TensorViewExpr<Tensor<T,Rest...>,DIMS>(tmp_this_tensor,get_sequences());
@@ -995,6 +1003,7 @@ public:
 #if !(FASTOR_NO_ALIAS)
         if (_does_alias) {
             _does_alias = false;
+            FASTOR_VERIF_ROUTE("view.alias_copy.tensor_views_nd");
             // Evaluate this into a temporary
             auto tmp_this_tensor = get_tensor();
             auto tmp = TensorViewExpr<Tensor<T,Rest...>,DIMS>(tmp_this_tensor,get_sequences());
@@ -1078,6 +1087,7 @@ public:
 #if !(FASTOR_NO_ALIAS)
         if (_does_alias) {
             _does_alias = false;
+            FASTOR_VERIF_ROUTE("view.alias_copy.tensor_views_nd");
             // Evaluate this into a temporary
             auto tmp_this_tensor = get_tensor();
             auto tmp = TensorViewExpr<Tensor<T,Rest...>,DIMS>(tmp_this_tensor,get_sequences());
@@ -1162,6 +1172,7 @@ public:
 #if !(FASTOR_NO_ALIAS)
         if (_does_alias) {
             _does_alias = false;
+            FASTOR_VERIF_ROUTE("view.alias_copy.tensor_views_nd");
             // Evaluate this into a temporary
             auto tmp_this_tensor = get_tensor();
             auto tmp = TensorViewExpr<Tensor<T,Rest...>,DIMS>(tmp_this_tensor,get_sequences());
